@@ -177,4 +177,25 @@ mod verif_standins {
             }
         }
     }
+
+    /// the context digest depends on every byte of the transcript, however long
+    #[test]
+    fn standin_context_digest() {
+        for len in [0usize, 1, 31, 32, 33, 1023, 1024, 1025, 1512, 4096, 4097, 70_000] {
+            let t: Vec<u8> = (0..len).map(|i| (i * 31 + 7) as u8).collect();
+            let base = Context::new(&t).as_bytes();
+            assert_eq!(base, Context::new(&t).as_bytes(), "STANDIN Context::new: not deterministic");
+            for pos in [0usize, len / 2, len.saturating_sub(1)] {
+                if len == 0 { break; }
+                let mut t2 = t.clone(); t2[pos] ^= 1;
+                assert_ne!(base, Context::new(&t2).as_bytes(), "STANDIN Context::new: byte {} of a {}-byte transcript does not enter the context", pos, len);
+            }
+            let mut t3 = t.clone(); t3.push(0);
+            assert_ne!(base, Context::new(&t3).as_bytes(), "STANDIN Context::new: an appended byte (transcript of {} bytes) does not enter the context", len);
+            // reference: SHA3-256 of the whole transcript
+            use sha3::{Digest, Sha3_256};
+            let mut h = Sha3_256::new(); h.update(&t);
+            assert_eq!(&base[..], &h.finalize()[..], "STANDIN Context::new: not the SHA3-256 digest of the whole transcript ({} bytes)", len);
+        }
+    }
 }
